@@ -55,7 +55,7 @@ def attack(h, res, budget):
             ids = sorted({max(0, sa.peer_msg_id - 1), sa.peer_msg_id, sa.peer_msg_id + 1, max(0, sa.my_msg_id - 1), sa.my_msg_id,
                           sa.my_msg_id + 1, 0, 2 ** 31})
             ps = payload_sets()
-            for exch in (34, 35, 36, 37, 38, 99):
+            for exch in (34, 35, 36, 37, 38, 99, 0, 1, 33, 255):
                 for resp in (False, True):
                     for mid in ids:
                         if r.random() < budget:
